@@ -43,6 +43,9 @@ Proof. revert b; induction a as [|x a IH]; intros [|y b]; cbn; try discriminate;
   intros H. assert (H1 : raw x = raw y) by congruence. assert (H2 : map raw a = map raw b) by congruence.
   f_equal; [now apply raw_inj | now apply IH]. Qed.
 
+Lemma sched_of_inj a b : sched_of a = sched_of b -> a = b.
+Proof. unfold sched_of. intros H. apply map_raw_inj. congruence. Qed.
+
 Lemma size_nil c k : objs c k = [] -> size c k = 0%Z.
 Proof. unfold size; now intros ->. Qed.
 
@@ -113,8 +116,8 @@ Proof.
   - apply validate_item_ok_iff in E. destruct E as [-> Hr].
     destruct (validate_items c (S j0) items) as [l|x] eqn:E2; [discriminate|].
     intros [= ->]. apply IH in E2. destruct E2 as (pre & bad & post & -> & Hp & -> & Hb).
-    exists (it :: pre), bad, post. cbn. repeat split; auto. lia.
-  - intros [= <- <-]. exists [], v, items. cbn. repeat split; auto. lia.
+    exists (it :: pre), bad, post. cbn. repeat split; auto; try lia.
+  - intros [= <- <-]. exists [], v, items. cbn. repeat split; auto; try lia.
 Qed.
 Lemma validate_items_total c items j :
   (exists t, validate_items c j items = inl t) \/ (exists j' e, validate_items c j items = inr (j', e)).
@@ -164,7 +167,6 @@ Proof.
     + apply kind_eqb_neq in E. cbn [Nat.add]. rewrite IH. split.
       * intros H [|a] [|b] za zb Ha Hb; cbn in *; try reflexivity.
         -- injection Ha as Ha; subst it; now cbn in E.
-        -- injection Ha as Ha; subst it; now cbn in E.
         -- injection Hb as Hb; subst it; now cbn in E.
         -- f_equal; eauto.
       * intros H a b za zb Ha Hb. specialize (H (S a) (S b) za zb Ha Hb). now injection H.
@@ -188,14 +190,17 @@ Proof.
     + apply count_le1_iff. lia.
     + destruct (exists_last (l := s)) as [front [[k z] ->]]; [intros ->; cbn in Hlen; lia|].
       rewrite last_app_single in Hlast. cbn in Hlast. exists front, k, z. split; [reflexivity|]. now apply is_meas_iff.
-  - intros (Hlen & (z & rest & -> & Hrest) & Hp & (front & k & z' & Hs & Hk)).
-    destruct (Nat.ltb_spec (List.length ((KState, z) :: rest)) 2) as [|_]; [lia|].
-    cbn [hd fst kind_eqb negb].
-    rewrite Hs, last_app_single. cbn [fst]. apply is_meas_iff in Hk. rewrite Hk. cbn [negb]. rewrite <- Hs.
-    assert (Hcs : count_kind KState ((KState, z) :: rest) = 1%nat).
-    { rewrite count_kind_cons. cbn. apply count_zero_iff in Hrest. lia. }
-    rewrite Hcs. cbn [Nat.leb]. apply count_le1_iff in Hp.
-    destruct (Nat.leb_spec 2 (count_kind KPovm ((KState, z) :: rest))); [lia|reflexivity].
+  - intros (Hlen & (z & rest & Hs0 & Hrest) & Hp & (front & k & z' & Hs & Hk)).
+    destruct (Nat.ltb_spec (List.length s) 2) as [|_]; [lia|].
+    assert (Hhd : kind_eqb (fst (hd dflt_item s)) KState = true) by (rewrite Hs0; reflexivity).
+    rewrite Hhd. cbn [negb].
+    assert (Hl : is_meas (fst (last s dflt_item)) = true).
+    { rewrite Hs, last_app_single. cbn [fst]. now apply is_meas_iff. }
+    rewrite Hl. cbn [negb].
+    assert (Hcs : count_kind KState s = 1%nat).
+    { rewrite Hs0, count_kind_cons. cbn. apply count_zero_iff in Hrest. lia. }
+    rewrite Hcs. change (2 <=? 1)%nat with false. cbv iota. apply count_le1_iff in Hp.
+    destruct (Nat.leb_spec 2 (count_kind KPovm s)); [lia|reflexivity].
 Qed.
 (* which rule is reported: the first violated one, in the code's order *)
 Lemma validate_order_reason s r : validate_order s = Some r ->
@@ -251,7 +256,7 @@ Proof.
   split.
   - intros (t & [= ->] & Hr & Ho). exists t. split; [apply validate_items_inl_iff; auto | now apply validate_order_none_iff].
   - intros (t & Hi & Ho). apply validate_items_inl_iff in Hi. destruct Hi as [-> Hr].
-    exists t. repeat split; auto. now apply validate_order_none_iff.
+    exists t. split; [reflexivity|]. split; [assumption|]. now apply validate_order_none_iff.
 Qed.
 Lemma noniter_not_wf c : ~ well_formed c SNonIter.
 Proof. intros (t & H & _). discriminate. Qed.
@@ -274,3 +279,291 @@ Qed.
 
 Theorem experiment_accepts_iff c ss : validate_schedules c ss = VOk <-> Forall (well_formed c) ss.
 Proof. apply validate_from_ok_iff. Qed.
+
+(* ================================================================== which error, where *)
+(* the schedule's first item that is not a well-typed in-range item sits at position j and raised e *)
+Definition first_bad_item (c : cfg) (items : list pyval) (j : nat) (e : pyexc) : Prop :=
+  exists pre bad post, items = map raw pre ++ bad :: post /\ Forall (in_range c) pre /\ j = List.length pre /\
+                       ~ item_ok c bad /\ validate_item c bad = IErr e.
+Definition has_bad_item (c : cfg) (s : rsched) : Prop :=
+  exists items v, s = SSeq items /\ In v items /\ ~ item_ok c v.
+
+Lemma wf_items_nonempty c items : well_formed c (SSeq items) -> items <> [].
+Proof. intros (t & [= ->] & _ & Hlen & _). destruct t; cbn in *; [lia|discriminate]. Qed.
+
+Lemma validate_from_spec c ss : forall i0 jst,
+  match validate_from c i0 jst ss with
+  | VOk => Forall (well_formed c) ss
+  | VItemError i j e =>
+      exists pre s post, ss = pre ++ s :: post /\ i = (i0 + List.length pre)%nat /\ Forall (well_formed c) pre /\
+        ((exists items, s = SSeq items /\ first_bad_item c items j e) \/
+         (s = SNonIter /\ (pre <> [] \/ jst <> None) /\ e = TypeError))
+  | VOrderError i r =>
+      exists pre t post, ss = pre ++ sched_of t :: post /\ i = (i0 + List.length pre)%nat /\ Forall (well_formed c) pre /\
+        Forall (in_range c) t /\ ~ order_ok t /\ validate_order t = Some r
+  | VUnbound i => jst = None /\ i = i0 /\ exists post, ss = SNonIter :: post
+  end.
+Proof.
+  induction ss as [|s ss IH]; intros i0 jst; cbn; [constructor|].
+  destruct s as [items|].
+  - destruct (validate_items c 0 items) as [t|[j e]] eqn:Hi.
+    + destruct (validate_order t) as [r|] eqn:Ho.
+      * apply validate_items_inl_iff in Hi. destruct Hi as [-> Hr].
+        exists [], t, ss. cbn. repeat split; auto.
+        intros Hok. apply validate_order_none_iff in Hok. congruence.
+      * assert (Hwf : well_formed c (SSeq items)) by (apply seq_wf_iff; now exists t).
+        pose proof (wf_items_nonempty _ _ Hwf) as Hne.
+        set (jst' := match items with [] => jst | _ :: _ => Some (List.length items - 1)%nat end).
+        assert (Hj : jst' <> None) by (subst jst'; destruct items; [contradiction|discriminate]).
+        specialize (IH (S i0) jst').
+        destruct (validate_from c (S i0) jst' ss) as [|i j e|i r|i].
+        -- now constructor.
+        -- destruct IH as (pre & s & post & -> & -> & Hpre & Hs).
+           exists (SSeq items :: pre), s, post. cbn. split; [reflexivity|]. split; [lia|]. split; [now constructor|].
+           destruct Hs as [Hs|(Hs & _ & He)]; [now left|]. right. split; [assumption|]. split; [left; discriminate|assumption].
+        -- destruct IH as (pre & t' & post & -> & -> & Hpre & Hrest).
+           exists (SSeq items :: pre), t', post. cbn. split; [reflexivity|]. split; [lia|]. split; [now constructor|assumption].
+        -- destruct IH as [IH _]. contradiction.
+    + apply validate_items_inr in Hi. destruct Hi as (pre & bad & post & -> & Hp & -> & Hb).
+      exists [], (SSeq (map raw pre ++ bad :: post)), ss. cbn. repeat split; auto. left.
+      exists (map raw pre ++ bad :: post). split; [reflexivity|].
+      exists pre, bad, post. repeat split; auto.
+      apply validate_item_err_iff. now exists e.
+  - destruct jst as [j|].
+    + exists [], SNonIter, ss. cbn. repeat split; auto. right. repeat split; auto. right; discriminate.
+    + repeat split; auto. now exists ss.
+Qed.
+
+Theorem validate_schedules_spec c ss :
+  match validate_schedules c ss with
+  | VOk => Forall (well_formed c) ss
+  | VItemError i j e =>
+      exists pre s post, ss = pre ++ s :: post /\ i = List.length pre /\ Forall (well_formed c) pre /\
+        ((exists items, s = SSeq items /\ first_bad_item c items j e) \/ (s = SNonIter /\ pre <> [] /\ e = TypeError))
+  | VOrderError i r =>
+      exists pre t post, ss = pre ++ sched_of t :: post /\ i = List.length pre /\ Forall (well_formed c) pre /\
+        Forall (in_range c) t /\ ~ order_ok t /\ validate_order t = Some r
+  | VUnbound i => i = 0%nat /\ exists post, ss = SNonIter :: post
+  end.
+Proof.
+  unfold validate_schedules. pose proof (validate_from_spec c ss 0 None) as H.
+  destruct (validate_from c 0 None ss) as [|i j e|i r|i]; auto.
+  - destruct H as (pre & s & post & H1 & H2 & H3 & H4). exists pre, s, post. repeat split; auto.
+    destruct H4 as [H4|(H4 & [H5|H5] & H6)]; [now left| |congruence]. right. repeat split; auto.
+  - now destruct H as (_ & H & H').
+Qed.
+
+(* stepping over a well-formed prefix *)
+Lemma validate_from_skip c pre : forall i jst rest, Forall (well_formed c) pre ->
+  exists jst', validate_from c i jst (pre ++ rest) = validate_from c (i + List.length pre) jst' rest /\
+               (pre <> [] -> jst' <> None) /\ (pre = [] -> jst' = jst).
+Proof.
+  induction pre as [|s pre IH]; intros i jst rest Hwf.
+  - exists jst. cbn. rewrite Nat.add_0_r. repeat split; auto; try (intros H; contradiction).
+  - inversion Hwf as [|? ? Hs Hpre]; subst. destruct s as [items|]; [|now apply noniter_not_wf in Hs].
+    pose proof (wf_items_nonempty _ _ Hs) as Hne.
+    apply seq_wf_iff in Hs. destruct Hs as (t & Hi & Ho). cbn. rewrite Hi, Ho.
+    set (jst0 := match items with [] => jst | _ :: _ => Some (List.length items - 1)%nat end).
+    assert (Hj : jst0 <> None) by (subst jst0; destruct items; [contradiction|discriminate]).
+    destruct (IH (S i) jst0 rest Hpre) as (jst' & H1 & H2 & H3). exists jst'.
+    split; [rewrite H1; f_equal; lia|]. split; [|discriminate].
+    intros _. destruct pre; [rewrite H3; auto|apply H2; discriminate].
+Qed.
+
+(* QuaraScheduleItemError  <->  the first schedule that is not well formed contains an item that is not a well-typed
+   in-range (kind, index) pair, or is a non-iterable value that is not the first schedule *)
+Theorem item_error_iff c ss :
+  (exists i j e, validate_schedules c ss = VItemError i j e) <->
+  (exists pre s post, ss = pre ++ s :: post /\ Forall (well_formed c) pre /\
+                      (has_bad_item c s \/ (s = SNonIter /\ pre <> []))).
+Proof.
+  split.
+  - intros (i & j & e & H). pose proof (validate_schedules_spec c ss) as S. rewrite H in S.
+    destruct S as (pre & s & post & -> & _ & Hpre & Hs). exists pre, s, post. repeat split; auto.
+    destruct Hs as [(items & -> & (p & bad & q & -> & _ & _ & Hbad & _))|(-> & Hne & _)]; [left|right; auto].
+    exists (map raw p ++ bad :: q), bad. repeat split; auto. apply in_or_app; right; now left.
+  - intros (pre & s & post & -> & Hpre & Hs). unfold validate_schedules.
+    destruct (validate_from_skip c pre 0 None (s :: post) Hpre) as (jst' & -> & Hj1 & Hj2). cbn [validate_from].
+    destruct Hs as [(items & v & -> & Hin & Hbad)|(-> & Hne)].
+    + destruct (validate_items c 0 items) as [t|[j e]] eqn:Hi.
+      * exfalso. apply validate_items_inl_iff in Hi. destruct Hi as [-> Hr]. apply Hbad.
+        apply in_map_iff in Hin. destruct Hin as (it & <- & Hit). exists it. split; [reflexivity|].
+        rewrite Forall_forall in Hr. now apply Hr.
+      * now exists (0 + List.length pre)%nat, j, e.
+    + destruct jst' as [j|]; [now exists (0 + List.length pre)%nat, j, TypeError|]. exfalso. now apply Hj1.
+Qed.
+
+(* QuaraScheduleOrderError  <->  the first schedule that is not well formed consists of well-typed in-range items
+   only, but breaks an order rule *)
+Theorem order_error_iff c ss :
+  (exists i r, validate_schedules c ss = VOrderError i r) <->
+  (exists pre t post, ss = pre ++ sched_of t :: post /\ Forall (well_formed c) pre /\
+                      Forall (in_range c) t /\ ~ order_ok t).
+Proof.
+  split.
+  - intros (i & r & H). pose proof (validate_schedules_spec c ss) as S. rewrite H in S.
+    destruct S as (pre & t & post & -> & _ & Hpre & Hr & Ho & _). now exists pre, t, post.
+  - intros (pre & t & post & -> & Hpre & Hr & Ho). unfold validate_schedules.
+    destruct (validate_from_skip c pre 0 None (sched_of t :: post) Hpre) as (jst' & -> & _ & _).
+    unfold sched_of. cbn [validate_from].
+    assert (Hi : validate_items c 0 (map raw t) = inl t) by (apply validate_items_inl_iff; auto). rewrite Hi.
+    destruct (validate_order t) as [r|] eqn:E; [now exists (0 + List.length pre)%nat, r|].
+    exfalso. apply Ho. now apply validate_order_none_iff.
+Qed.
+
+(* for list-of-sequences inputs (every schedule iterable) the only outcomes are Ok / item error / order error *)
+Definition is_seq (s : rsched) : Prop := exists items, s = SSeq items.
+Theorem rejected_with_item_or_order_error c ss : Forall is_seq ss ->
+  validate_schedules c ss = VOk \/ (exists i j e, validate_schedules c ss = VItemError i j e) \/
+  (exists i r, validate_schedules c ss = VOrderError i r).
+Proof.
+  intros Hs. pose proof (validate_schedules_spec c ss) as S.
+  destruct (validate_schedules c ss) as [|i j e|i r|i]; [now left|right; left; now exists i, j, e|right; right; now exists i, r|].
+  exfalso. destruct S as (_ & post & ->). inversion Hs as [|? ? [items H] _]. discriminate.
+Qed.
+(* ... but a non-iterable FIRST schedule escapes with UnboundLocalError: the statement "anything else is rejected with
+   the schedule-item or schedule-order error" is false of the faithful model for such inputs *)
+Theorem unbound_iff c ss : (exists i, validate_schedules c ss = VUnbound i) <-> exists post, ss = SNonIter :: post.
+Proof.
+  split.
+  - intros (i & H). pose proof (validate_schedules_spec c ss) as S. rewrite H in S. now destruct S.
+  - intros (post & ->). now exists 0%nat.
+Qed.
+Theorem noniterable_first_schedule_refuted :
+  exists c ss, validate_schedules c ss <> VOk /\ (forall i j e, validate_schedules c ss <> VItemError i j e) /\
+               (forall i r, validate_schedules c ss <> VOrderError i r).
+Proof. exists (mkcfg [true] [true] [] []), [SNonIter]. cbn. repeat split; intros; discriminate. Qed.
+
+(* ================================================================== None placeholders do not matter for validation *)
+Definition same_sizes (c c' : cfg) : Prop := forall k, List.length (objs c k) = List.length (objs c' k).
+Lemma is_nil_length {A} (l : list A) : is_nil l = (List.length l =? 0)%nat.
+Proof. now destruct l. Qed.
+Lemma validate_item_sizes c c' v : same_sizes c c' -> validate_item c v = validate_item c' v.
+Proof.
+  intros H. destruct v as [| | | |vs|]; try reflexivity.
+  destruct vs as [|name [|idx [|x vs]]]; try reflexivity.
+  destruct name as [|s| | | |]; try reflexivity. destruct idx as [| |z| | |]; try reflexivity.
+  cbn. destruct (kind_of_name s) as [k|]; [|reflexivity].
+  rewrite !is_nil_length. pose proof (H KPovm) as Hp. pose proof (H KMprocess) as Hm. cbn in Hp, Hm. rewrite Hp, Hm.
+  unfold size. now rewrite (H k).
+Qed.
+Lemma validate_items_sizes c c' items : same_sizes c c' -> forall j, validate_items c j items = validate_items c' j items.
+Proof.
+  intros H. induction items as [|v items IH]; intros j; cbn; [reflexivity|].
+  rewrite (validate_item_sizes c c' v H). destruct (validate_item c' v); [|reflexivity]. now rewrite IH.
+Qed.
+Theorem validation_ignores_placeholders c c' ss : same_sizes c c' -> validate_schedules c ss = validate_schedules c' ss.
+Proof.
+  intros H. unfold validate_schedules. generalize 0%nat, (@None nat).
+  induction ss as [|s ss IH]; intros i jst; cbn; [reflexivity|].
+  destruct s as [items|]; [|reflexivity]. rewrite (validate_items_sizes c c' items H).
+  destruct (validate_items c' 0 items) as [t|[j e]]; [|reflexivity].
+  destruct (validate_order t); [reflexivity|]. apply IH.
+Qed.
+
+(* ================================================================== constructor and setters *)
+Definition valid_exp (e : exp) : Prop := Forall (well_formed (e_cfg e)) (e_scheds e).
+(* what the assignment would make of the experiment *)
+Definition target (e : exp) (op : setop) : exp :=
+  match op with
+  | SetObjs k v => mkexp (with_objs (e_cfg e) k v) (e_scheds e)
+  | SetSchedules ss => mkexp (e_cfg e) ss
+  end.
+Theorem construct_spec c ss :
+  (Forall (well_formed c) ss -> construct c ss = inl (mkexp c ss)) /\
+  (~ Forall (well_formed c) ss -> exists r, construct c ss = inr r /\ r <> VOk /\ r = validate_schedules c ss).
+Proof.
+  unfold construct. split; intros H.
+  - apply experiment_accepts_iff in H. now rewrite H.
+  - destruct (validate_schedules c ss) eqn:E; [exfalso; apply H; now apply experiment_accepts_iff| | |];
+      eexists; repeat split; discriminate.
+Qed.
+(* a setter is a re-validation of the would-be experiment; it takes effect exactly when that is well formed,
+   otherwise nothing changes and the validator's error is raised *)
+Theorem apply_set_spec e op :
+  snd (apply_set e op) = validate_schedules (e_cfg (target e op)) (e_scheds (target e op)) /\
+  (valid_exp (target e op) -> apply_set e op = (target e op, VOk)) /\
+  (~ valid_exp (target e op) -> fst (apply_set e op) = e /\ snd (apply_set e op) <> VOk).
+Proof.
+  unfold valid_exp. destruct op as [k v|ss]; cbn [apply_set target e_cfg e_scheds].
+  - destruct (validate_schedules (with_objs (e_cfg e) k v) (e_scheds e)) eqn:E; cbn [fst snd]; (split; [reflexivity|]);
+      try (split; [intros H; apply experiment_accepts_iff in H; congruence | intros _; split; [reflexivity|discriminate]]).
+    split; [reflexivity|]. intros H; exfalso; apply H. now apply experiment_accepts_iff.
+  - destruct (validate_schedules (e_cfg e) ss) eqn:E; cbn [fst snd]; (split; [reflexivity|]);
+      try (split; [intros H; apply experiment_accepts_iff in H; congruence | intros _; split; [reflexivity|discriminate]]).
+    split; [reflexivity|]. intros H; exfalso; apply H. now apply experiment_accepts_iff.
+Qed.
+Lemma apply_set_valid e op : valid_exp e -> valid_exp (fst (apply_set e op)).
+Proof.
+  intros He. destruct (apply_set_spec e op) as (_ & H1 & H2).
+  assert (D : validate_schedules (e_cfg (target e op)) (e_scheds (target e op)) = VOk \/
+              validate_schedules (e_cfg (target e op)) (e_scheds (target e op)) <> VOk)
+    by (destruct (validate_schedules (e_cfg (target e op)) (e_scheds (target e op))); [now left|right; discriminate..]).
+  destruct D as [D|D].
+  - apply experiment_accepts_iff in D. rewrite (H1 D). exact D.
+  - assert (Hn : ~ valid_exp (target e op)) by (intros Hv; apply D; now apply experiment_accepts_iff).
+    destruct (H2 Hn) as [-> _]. exact He.
+Qed.
+(* invariant over every history of assignments, accepted or rejected *)
+Theorem run_sets_valid ops : forall e, valid_exp e -> valid_exp (run_sets e ops).
+Proof.
+  induction ops as [|op ops IH]; intros e He; [exact He|]. unfold run_sets; cbn [fold_left].
+  apply IH. now apply apply_set_valid.
+Qed.
+(* replacing an object list can only fail with the schedule-ITEM error *)
+Theorem objs_setter_error_is_item_error e k v : valid_exp e ->
+  snd (apply_set e (SetObjs k v)) = VOk \/ exists i j err, snd (apply_set e (SetObjs k v)) = VItemError i j err.
+Proof.
+  intros He. destruct (apply_set_spec e (SetObjs k v)) as (-> & _ & _). cbn [target e_cfg e_scheds].
+  pose proof (validate_schedules_spec (with_objs (e_cfg e) k v) (e_scheds e)) as S.
+  destruct (validate_schedules (with_objs (e_cfg e) k v) (e_scheds e)) as [|i j err|i r|i]; [now left|right; now exists i, j, err| |]; exfalso.
+  - destruct S as (pre & t & post & Hss & _ & _ & _ & Ho & _). unfold valid_exp in He. rewrite Hss in He.
+    apply Forall_app in He. destruct He as [_ He]. inversion He as [|? ? Hwf _]; subst.
+    destruct Hwf as (t' & Heq & _ & Ho'). unfold sched_of in Heq. injection Heq as Heq. apply map_raw_inj in Heq. subst. contradiction.
+  - destruct S as (_ & post & Hss). unfold valid_exp in He. rewrite Hss in He. inversion He as [|? ? Hwf _]; subst.
+    now apply noniter_not_wf in Hwf.
+Qed.
+
+(* ================================================================== calc_prob_dist: index check and None placeholders *)
+Definition present (c : cfg) (it : titem) : Prop := nth (Z.to_nat (snd it)) (objs c (fst it)) false = true.
+Lemma first_none_spec c t : forall p,
+  match first_none c p t with
+  | None => Forall (present c) t
+  | Some q => exists pre it post, t = pre ++ it :: post /\ q = (p + List.length pre)%nat /\ Forall (present c) pre /\ ~ present c it
+  end.
+Proof.
+  induction t as [|[k z] t IH]; intros p; cbn; [constructor|].
+  destruct (nth (Z.to_nat z) (objs c k) false) eqn:E.
+  - specialize (IH (S p)). destruct (first_none c (S p) t) as [q|].
+    + destruct IH as (pre & it & post & -> & -> & Hpre & Hit). exists ((k, z) :: pre), it, post. cbn.
+      repeat split; auto; try lia.
+    + now constructor.
+  - exists [], (k, z), t. cbn. repeat split; auto; try lia. unfold present; cbn. congruence.
+Qed.
+(* on a validated experiment, for a valid schedule index: ValueError exactly when the schedule references a None
+   placeholder (position of the first one), otherwise the referenced objects are composed *)
+Theorem calc_prob_dist_spec e n s : valid_exp e -> nth_error (e_scheds e) n = Some s ->
+  exists t, s = sched_of t /\ Forall (in_range (e_cfg e)) t /\ order_ok t /\
+    calc_prob_dist_pre e (PInt (Z.of_nat n)) =
+      match first_none (e_cfg e) 0 t with Some p => CValueError p | None => CRun t end.
+Proof.
+  intros He Hn. unfold valid_exp in He. rewrite Forall_forall in He.
+  pose proof (He s (nth_error_In _ _ Hn)) as (t & -> & Hr & Ho). exists t. split; [reflexivity|]. split; [assumption|]. split; [assumption|].
+  unfold calc_prob_dist_pre. cbv beta iota.
+  assert (Hlt : (n < List.length (e_scheds e))%nat) by (apply nth_error_Some; congruence).
+  replace ((0 <=? Z.of_nat n) && (Z.of_nat n <? Z.of_nat (List.length (e_scheds e))))%Z with true
+    by (symmetry; apply andb_true_iff; split; [apply Z.leb_le|apply Z.ltb_lt]; lia).
+  cbv iota. rewrite Nat2Z.id. rewrite (nth_error_nth _ _ _ Hn). fold (sched_of t).
+  assert (Hi : validate_items (e_cfg e) 0 (map raw t) = inl t) by (apply validate_items_inl_iff; auto).
+  unfold sched_of. now rewrite Hi.
+Qed.
+Theorem calc_prob_dist_bad_index e v :
+  match v with
+  | PInt z => ~ (0 <= z < Z.of_nat (List.length (e_scheds e)))%Z -> calc_prob_dist_pre e v = CIndexError
+  | _ => calc_prob_dist_pre e v = CTypeError
+  end.
+Proof.
+  destruct v; try reflexivity. intros H. unfold calc_prob_dist_pre.
+  destruct ((0 <=? z) && (z <? Z.of_nat (List.length (e_scheds e))))%Z eqn:E; [|reflexivity].
+  exfalso. apply H. apply andb_true_iff in E. destruct E as [E1 E2]. apply Z.leb_le in E1. apply Z.ltb_lt in E2. lia.
+Qed.
